@@ -269,6 +269,7 @@ func (E2EFaultEngine) Run(prop string, ci any) *core.Outcome {
 		out.Violate("C11", "step-bound", sig+"/"+kinds, "%d logging steps in one read (fault-free scale: %d exchanges)", r.Slog, b.e)
 	}
 	smExchangeOracle(out, "C11", r)
+	plainProtocolOracle(out, "C11", r)
 	if r.Doc == nil && r.Err == nil {
 		out.Violate("C11", "no-result", sig, "ReadDocument returned neither a document nor an error")
 	}
